@@ -17,9 +17,11 @@ from mc.gen import detspaces, raw
 
 PROP = "C18"
 
-NODE_RE = re.compile(r'(?ms)^(\d+)\[label=<<TABLE ALIGN="LEFT" COLOR="([^"]+)">\n(.*?)</TABLE>> labelloc=top shape=plain\n\]')
-ROW_RE = re.compile(r'(?s)<TR><TD ALIGN="LEFT" BALIGN="LEFT" COLOR="[^"]+">(.*?)</TD></TR>')
-HEAD_RE = re.compile(r'(?s)<TR><TD COLOR="BLACK" ALIGN="LEFT" BALIGN="LEFT" PORT="(\d+)" BORDER="\d+"><B>(.*?)</B></TD></TR>')
+# tolerant of attribute order / extra attributes: only COLOR (table), PORT (header cell) are read
+NODE_RE = re.compile(r'(?ms)^(\d+)\[label=<<TABLE\b([^>]*)>\s*(.*?)</TABLE>>[^\]]*\]')
+ROW_RE = re.compile(r'(?s)<TR>\s*<TD\b(?![^>]*\bPORT=)[^>]*>(.*?)</TD>\s*</TR>')
+HEAD_RE = re.compile(r'(?s)<TR>\s*<TD\b[^>]*\bPORT="(\d+)"[^>]*>\s*<B>(.*?)</B>\s*</TD>\s*</TR>')
+COLOR_RE = re.compile(r'\bCOLOR="([^"]+)"')
 EDGE_RE = re.compile(r"(\w+):s -> (\w+):(\d+):n")
 BOX_IN_RE = re.compile(r"(\d+):s -> (x\w+):n;")
 BOX_RE = re.compile(r'(x\d+_\w+)\[label="Subroutine ([^"]+)",style=dashed')
@@ -29,7 +31,9 @@ class Dot:  # pylint: disable=too-few-public-methods
     def __init__(self, text: str):
         self.nodes: Dict[int, Dict[str, Any]] = {}
         for m in NODE_RE.finditer(text):
-            idx, color, body = int(m.group(1)), m.group(2), m.group(3)
+            idx, body = int(m.group(1)), m.group(3)
+            cm = COLOR_RE.search(m.group(2))
+            color = cm.group(1) if cm else ""
             head = HEAD_RE.search(body)
             rows = []
             for r in ROW_RE.findall(body):
